@@ -288,6 +288,25 @@ def make_annotate_then_kwoargs():
     return g, [g, f]
 
 
+class CallEmulated(object):
+    def method(self, p, q=1):
+        return p
+
+    @specifiers.forwards_to_method('method', emulate=True)
+    def __call__(self, x, *args, **kwargs):
+        return self.method(*args, **kwargs)
+
+
+def make_class_call_emulate():
+    # retrieval through the class reads cls.__call__: the first access to an emulate=True forger wrapper
+    ns = dict(CallEmulated.__dict__)
+    ns.pop('__dict__', None)
+    ns.pop('__weakref__', None)
+    ns['__call__'] = specifiers.forwards_to_method('method', emulate=True)(CallEmulated.__dict__['__call__'].__wrapped__)
+    cls = type('CallEmulatedCopy', (object,), ns)
+    return cls, [cls, cls.__dict__['__call__']]
+
+
 def make_annotate_then_kwoargs_nosource():
     # the same, on a function whose source cannot be retrieved (built by exec): the discovery hint has nothing to say
     ns = {}
@@ -301,7 +320,7 @@ SCENARIOS = ('wraps1', 'wraps2', 'own_signature', 'own_signature_and_wrapped', '
              'signature_property', 'forwards_to_function', 'forwards_emulate', 'forger_raises', 'kwoargs_function',
              'kwoargs_method', 'wrappers_decorator', 'partial_of_wraps', 'annotate_then_kwoargs',
              'handbuilt_upgraded_signature', 'handbuilt_on_instance', 'forger_raises_emulate', 'as_forged_forger_fails',
-             'annotate_then_kwoargs_nosource')
+             'annotate_then_kwoargs_nosource', 'class_call_emulate')
 RETRIEVERS = (('sigtools.signature', lambda o: sigtools.signature(o)),
               ('inspect.signature', lambda o: inspect.signature(o)))
 
@@ -393,12 +412,17 @@ def run_scenario_case(mod, scen, retriever, k, exc_type, expect, st):
         guard.clear()
     st.inc('transitions')
     if probs:
+        feat = {'scenario': scen, 'fault': k is not None}
+        if all(p_.startswith('_ForgerWrapper ') and (p_.endswith('attribute _transformed now is another object')
+                                                      or p_.endswith('attribute __wrapped__ now is another object')) for p_ in probs):
+            # the one-time transformation an emulate=True wrapper applies to itself the first time it is read through a class
+            feat = {'cause': 'forger-wrapper-transforms-itself-on-first-access'}
         st.violation('object-modified-by-retrieval',
                      {'op': 'retrieval', 'scenario': scen, 'retriever': rname, 'crossing': k,
                       'exception': exc_type.__name__ if exc_type else None},
                      {'scenario': scen, 'retriever': rname, 'fault': None if k is None else
                       {'crossing': k, 'at': expect, 'exception': exc_type.__name__}, 'outcome': repr(res)[:200], 'problems': probs[:6]},
-                     {'scenario': scen, 'fault': k is not None})
+                     feat)
     del keep
     return points, fired
 
